@@ -50,12 +50,12 @@ def explain(meta, model_out):
             lost_words |= ws
         elif duplicated and i in bad and 'float' in g['ctx']:
             ids.add('float-fragment-duplicated')
-        elif duplicated and i in bad and 'footnote' in g['ctx']:
-            ids.add('footnote-duplicated')
+        elif i in bad and {'footnote', 'columns'} <= set(g['ctx']):
+            ids.add('footnote-in-columns-lost-or-duplicated')
         elif duplicated and i in bad and {'columns', 'table'} <= set(g['ctx']):
             ids.add('table-in-columns-duplicates-rows')
         elif (g['kind'] == 'oof' and i in bad and proj == g['words'][:len(proj)] and len(proj) < len(g['words'])
-              and not (set(g['ctx']) & {'footnote'})):
+              and 'footnote' not in g['ctx']):
             ids.add('out-of-flow-lost-at-document-end')
             lost_words |= ws
         else:
@@ -128,6 +128,26 @@ def fit_items(page):
     return bottom, items
 
 
+def explain_fits(meta):
+    """Finding id (C03) explaining a rejected geometry trace, or None."""
+    if {'columns', 'table'} <= set(meta.get('features', ())):
+        return 'table-in-columns-rows-overflow'
+    return None
+
+
+def render_outcome(html):
+    """'ok' or `err:<Class>@<file>:<function>` (innermost weasyprint frame) for render + write_pdf."""
+    import traceback
+    try:
+        document = docs.render(html)
+        data = document.write_pdf()
+        return 'ok' if len(document.pages) >= 1 and data[:5] == b'%PDF-' else 'bad-output'
+    except Exception as exc:  # noqa: BLE001
+        frames = [f for f in traceback.extract_tb(exc.__traceback__) if '/weasyprint/' in f.filename]
+        where = f'{frames[-1].filename.split("/")[-1]}:{frames[-1].name}' if frames else 'unknown'
+        return f'err:{type(exc).__name__}@{where}'
+
+
 def fits_cases(rng, features=None):
     """-> list of (line, meta, tags), one per page."""
     doc = widegen.gen(rng, features)
@@ -140,6 +160,6 @@ def fits_cases(rng, features=None):
         bottom, items = fit_items(page)
         line = sx.line('fits', bottom, [[b, f] for b, f in items])
         meta = {'html': doc['html'], 'page_index': index, 'bottom': str(bottom),
-                'items': [[str(b), f] for b, f in items]}
+                'items': [[str(b), f] for b, f in items], 'features': doc['features']}
         out.append((line, meta, list(doc['features']) + [f'items{min(len(items), 9)}']))
     return out
